@@ -83,6 +83,7 @@ func (t *vhostTrie) Match(key string) (*SiteConfig, string) {
 		if branch != nil {
 			break
 		}
+		h, _ = t.splitHostPath(h) // in the form hosts are filed under
 		branch = t.matchHost(h)
 	}
 	if branch == nil {
@@ -154,6 +155,10 @@ func (t *vhostTrie) splitHostPath(key string) (host, path string) {
 	hostname, _, err := net.SplitHostPort(host)
 	if err == nil {
 		host = hostname
+	} else if strings.HasPrefix(host, "[") && strings.HasSuffix(host, "]") {
+		// an IPv6 literal without a port: the same form
+		// SplitHostPort yields for one with a port
+		host = host[1 : len(host)-1]
 	}
 	return
 }
